@@ -18,6 +18,11 @@ HOSTILE = [
     "é́", "\U0001F600", "‮", "a\u0000b", " ", "'\"><", "=\"x\"", " a=\"b", "&#38;#38;",
     "&amp;amp;", "x" * 45 + "<" + "y" * 60, "&" * 41, "tab\there", "﻿", "퟿",
 ]
+HOSTILE += [
+    'data:image/png;base64,AAAA" onerror="alert(1)', "javascript:alert('1')", 'http://a/?x=1&y="2"<', "mailto:a@b?subject=<x>&body=\r\n",
+    "#frag\"><script>", "//cdn/x.js'\n",
+]
+LONG_HOSTILE = ["<p class=\"c\">Tom & 'Jerry'</p>\n" * 12, "x" * 199 + "<&>\"'", ("ab&cd<ef>" * 40)]
 META = "&<>\"'\r\n;#/= \t!-"
 
 
